@@ -12,13 +12,14 @@ use std::sync::Arc;
 use vcore::rnd;
 use vcore::Monitor;
 
-pub const RULE: &str = "seeded random histories over 4-8 consecutive epochs of 1-3 REAL signers (StateMachine + SignerRunner + real services over file-backed sqlite, real KesSignerStandard, real AggregatorHttpClient and HttpMithrilNetworkConfigurationProvider, production signature-publisher stack with 1-3 attempts; sources of /repo/mithril-signer compiled through signer-shim because mithril-signer and mithril-aggregator each define a #[global_allocator]) plus 0-2 scripted honest co-signers, against the REAL aggregator of mon-agg's Sim in the same process, through a loopback HTTP front before the aggregator's real warp router. The aggregator and every real signer have their OWN fake chain observer (their Cardano node: epoch, chain point, stake distribution; ticker, registration and stake recording of a signer read its own); the harness copies the world's state into a signer's node before each of its ticks, except during a node-lag window; immutable file observer and digester are shared. Events: aggregator ticks, signer ticks, epoch changes (with or without a new stake distribution), new immutable files, new blocks (CardanoTransactions enabled in half of the histories), signer restarts / stops (whole registration windows included) / starts on their own files, aggregator restarts (registration round not yet open until its next tick) and outages, faults on individual requests (dropped request, delivered-but-reply-lost, genuine epoch-settings reply of an earlier epoch served again, genuine 'registration round not yet opened' reply served again); PROTOCOL PARAMETER CHANGES: in 1/3 of the random histories the aggregator is restarted once or twice, at a random point of an epoch early enough for the new keys to come into force, with k and/or m and/or phi_f changed in its configuration (k 3-5, m 60-119, phi_f 0.9-0.97) -- the real aggregator then announces the new parameters for a later registration round under its own epoch offsets, so that for one epoch the keys in force and the keys of the next epoch were made under different parameters; NODE LAG: in 1/2 of the random histories, at 45% of the epoch changes the own node of one real signer keeps showing the old epoch (old stake distribution, old chain point) for 1-4 of that signer's ticks and then catches up; in half of the windows that signer is restarted (or started) inside the window, the aggregator mostly answers for the new epoch already (or is down / restarted / not yet ticked, as the other events have it), the lagging signer is ticked soon and new immutable files appear meanwhile. Five histories are scripted without any other fault: honest; one signer down for a whole epoch; its registrations dropped for a whole epoch; the aggregator restarted with k, m and phi_f changed during the second and fourth epoch; one signer restarted while its node lags for 3 ticks at the changes to the third and fifth epoch, new stake distribution at every change. Model (harness's own, from the boundary log only, epoch arithmetic written out): a registration sent while the sender's node shows chain epoch c and acknowledged by the aggregator is in force for signing at c+2, with the stake of the chain's distribution of epoch c, under the protocol parameters the REAL aggregator announced for the registration round of epoch c (signer_registration_protocol of its genuine /epoch-settings replies whose epoch is c -- to the signers, or to the harness's own request after every aggregator tick; the harness never computes a parameter set; the genesis rounds are the fixture's); the scripted co-signers make their keys with the parameters of the genuine epoch-settings reply they get when they register (and wait while it announces another epoch), exactly as a real signer. Oracle over the boundary log, every signature judged for the epoch its signer's OWN node shows (= the world's unless the node lags): E1 at most one acknowledged publication and one sigma per (signer, signed entity type, beacon), byte-identical re-sends counted; a failed publication is sent again while the beacon is current; E2 every sigma verifies with mithril-stm under the key THIS signer registered (as logged: last acknowledged registration sent during epoch E-2) in the signer set / stakes / announced parameters computed from the log, and the real aggregator accepts it (201/202; 410 = late; any other reply to a well-formed signature while the aggregator is at epoch E or E-1 is a violation; a buffered signature must be taken over when the aggregator opens that very message); E3 signatures only in ReadyToSign of the current epoch and with an eligible acknowledged registration; E4 after 8 consecutive undisturbed ticks of an epoch (aggregator reachable, working, same epoch, the signer's node caught up: a tick inside a lag window is a disturbance) a signer has registered for the round of the epoch and, if it holds the key in force, has signed (also after a restart); all certificates the aggregator sealed (across the parameter changes) verify with the public verifier. Non-trivial = a signature of a real signer accepted (201/202) by the aggregator in a signer history that already contained a fault / restart / stop / node lag; distinct by (history, signer, beacon). evaluations = oracle judgements (registrations, signature publications, retry / hand-over / progress checks, certificates, histories). Counters: histories_with_a_protocol_parameter_change, histories_with_a_node_lag_window, signatures_judged:under_changed_protocol_parameters / :in_an_epoch_whose_next_protocol_parameters_differ / :while_the_signers_node_lagged / :after_a_node_lag_in_the_same_epoch / :within_3_epochs_after_a_node_lag.";
+pub const RULE: &str = "seeded random histories over 4-8 consecutive epochs of 1-3 REAL signers (StateMachine + SignerRunner over the container returned by the signer's OWN mithril_signer::dependency_injection::DependenciesBuilder::build() -- the production wiring is code under test, the harness does not copy it: certifier with the production signature-publisher stack (delayer over retriers over no-op / aggregator HTTP client; 1-3 attempts, set through Configuration.signature_publisher_config), AggregatorHttpClient as registration publisher / registrations retriever / signature publisher, HttpMithrilNetworkConfigurationProvider, epoch service, single signer (party id from the operational certificate), protocol-initializer / stake / signed-beacon stores over file-backed sqlite with the configured retention limit, upkeep service, KesSignerStandard over the fixture's key files, era reader / checker (bootstrap adapter), ticker, metrics service are all what build() made; the chain observer and the immutable file observer doubles enter through build()'s two override hooks; overwritten in the returned container: digester (the aggregator's dumb digester), signable builder service (real MithrilSignableBuilderService / seed builder / signable builders re-assembled over the dumb digester and a dumb block scanner, on build()'s epoch service and protocol initializer store, real StakePoolStore and chain data repository over connections of their own to the same sqlite files) and the Cardano transactions preloader (disabled); sources of /repo/mithril-signer compiled through signer-shim because mithril-signer and mithril-aggregator each define a #[global_allocator]) plus 0-2 scripted honest co-signers, against the REAL aggregator of mon-agg's Sim in the same process, through a loopback HTTP front before the aggregator's real warp router (one listener per real signer, all sharing the fault plans and the boundary log: the aggregator endpoint of signer i is listener i, which is how a request is attributed to its signer -- the clients built by the signer's own wiring carry nothing that names them). The aggregator and every real signer have their OWN fake chain observer (their Cardano node: epoch, chain point, stake distribution; ticker, registration and stake recording of a signer read its own); the harness copies the world's state into a signer's node before each of its ticks, except during a node-lag window; immutable file observer and digester are shared. Events: aggregator ticks, signer ticks, epoch changes (with or without a new stake distribution), new immutable files, new blocks (CardanoTransactions enabled in half of the histories), signer restarts / stops (whole registration windows included) / starts on their own files, aggregator restarts (registration round not yet open until its next tick) and outages, faults on individual requests (dropped request, delivered-but-reply-lost, genuine epoch-settings reply of an earlier epoch served again, genuine 'registration round not yet opened' reply served again); PROTOCOL PARAMETER CHANGES: in 1/3 of the random histories the aggregator is restarted once or twice, at a random point of an epoch early enough for the new keys to come into force, with k and/or m and/or phi_f changed in its configuration (k 3-5, m 60-119, phi_f 0.9-0.97) -- the real aggregator then announces the new parameters for a later registration round under its own epoch offsets, so that for one epoch the keys in force and the keys of the next epoch were made under different parameters; NODE LAG: in 1/2 of the random histories, at 45% of the epoch changes the own node of one real signer keeps showing the old epoch (old stake distribution, old chain point) for 1-4 of that signer's ticks and then catches up; in half of the windows that signer is restarted (or started) inside the window, the aggregator mostly answers for the new epoch already (or is down / restarted / not yet ticked, as the other events have it), the lagging signer is ticked soon and new immutable files appear meanwhile. Five histories are scripted without any other fault: honest; one signer down for a whole epoch; its registrations dropped for a whole epoch; the aggregator restarted with k, m and phi_f changed during the second and fourth epoch; one signer restarted while its node lags for 3 ticks at the changes to the third and fifth epoch, new stake distribution at every change. Model (harness's own, from the boundary log only, epoch arithmetic written out): a registration sent while the sender's node shows chain epoch c and acknowledged by the aggregator is in force for signing at c+2, with the stake of the chain's distribution of epoch c, under the protocol parameters the REAL aggregator announced for the registration round of epoch c (signer_registration_protocol of its genuine /epoch-settings replies whose epoch is c -- to the signers, or to the harness's own request after every aggregator tick; the harness never computes a parameter set; the genesis rounds are the fixture's); the scripted co-signers make their keys with the parameters of the genuine epoch-settings reply they get when they register (and wait while it announces another epoch), exactly as a real signer. Oracle over the boundary log, every signature judged for the epoch its signer's OWN node shows (= the world's unless the node lags): E1 at most one acknowledged publication and one sigma per (signer, signed entity type, beacon), byte-identical re-sends counted; a failed publication is sent again while the beacon is current; E2 every sigma verifies with mithril-stm under the key THIS signer registered (as logged: last acknowledged registration sent during epoch E-2) in the signer set / stakes / announced parameters computed from the log, and the real aggregator accepts it (201/202; 410 = late; any other reply to a well-formed signature while the aggregator is at epoch E or E-1 is a violation; a buffered signature must be taken over when the aggregator opens that very message); E3 signatures only in ReadyToSign of the current epoch and with an eligible acknowledged registration; E4 after 8 consecutive undisturbed ticks of an epoch (aggregator reachable, working, same epoch, the signer's node caught up: a tick inside a lag window is a disturbance) a signer has registered for the round of the epoch and, if it holds the key in force, has signed (also after a restart); all certificates the aggregator sealed (across the parameter changes) verify with the public verifier. Non-trivial = a signature of a real signer accepted (201/202) by the aggregator in a signer history that already contained a fault / restart / stop / node lag; distinct by (history, signer, beacon). evaluations = oracle judgements (registrations, signature publications, retry / hand-over / progress checks, certificates, histories). Counters: histories_with_a_protocol_parameter_change, histories_with_a_node_lag_window, signatures_judged:under_changed_protocol_parameters / :in_an_epoch_whose_next_protocol_parameters_differ / :while_the_signers_node_lagged / :after_a_node_lag_in_the_same_epoch / :within_3_epochs_after_a_node_lag.";
 
 pub const ASSUMPTIONS: &[&str] = &[
-    "doubles for the Cardano node only (one fake chain observer per node -- the aggregator's and each real signer's; immutable file observer and digester shared by both sides; dumb block scanner)",
+    "doubles for the Cardano node only (one fake chain observer per node -- the aggregator's and each real signer's; immutable file observer and digester shared by both sides; dumb block scanner); on the signer side the observers go in through the override hooks of the signer's DependenciesBuilder, while digester, signable builder service and transactions preloader are overwritten in the container build() returned -- the part of build() that wires the Pallas chain reader / block scanner / chunked and pruning importers / Cardano immutable digester / preloader activation is therefore executed but its product is not used",
+    "signer configuration = Configuration::new_sample + own directories, own front listener as aggregator endpoint, fixture KES key and operational certificate, retention limit none or 3-5, signature publisher: 1-3 attempts, 1 ms retry delay, 1 ms delayer delay, delayer not skipped; no DMQ node (first publisher of the delayer is the no-op), no relay endpoint, digests cache disabled, metrics server off",
     "signed entity types enabled: MithrilStakeDistribution, CardanoStakeDistribution, CardanoDatabase, and CardanoTransactions in half of the histories (dumb block scanners fed with the same blocks on every node)",
     "restarts happen between ticks (clean stop); ticks of the different nodes do not overlap in time",
-    "faults are injected per HTTP request at the front: 503 without delivery, 504 after delivery, replay of a genuine earlier epoch-settings reply",
+    "faults are injected per HTTP request at the front (on the listener of the signer concerned): 503 without delivery, 504 after delivery, replay of a genuine earlier epoch-settings reply",
     "protocol parameters change only through the aggregator's configuration at a restart (as an operator does it); the ranges keep every signer winning lotteries and the quorum reachable",
     "a signer's node lags by at most one epoch, only right after an epoch change, and shows a consistent old state (epoch, chain point, stake distribution) until it catches up; it never goes backwards; the immutable file number is not part of the lag (shared observer)",
     "the parameters of a registration round are taken from the signer_registration_protocol field of the aggregator's genuine epoch-settings replies (still served by the pinned tree, marked deprecated); the harness cross-checks them against /protocol-configuration/{epoch+1} as a diagnostic only",
